@@ -1420,7 +1420,44 @@ def jresp(st, hl, body, **kw):
     return d
 
 
+# ---------------------------------------------------------------- what is modelled (rather than verified)
+MODELLED = [
+    # Request wire forms (Model/C20_wire.v: as_bytes, request_line, req_from_file, hdr_loop, from_bytes)
+    "webob.request:BaseRequest.as_bytes", "webob.request:BaseRequest.from_bytes", "webob.request:BaseRequest.from_file",
+    "webob.request:environ_from_url", "webob.request:PATH_SAFE", "webob.descriptors:SCHEME_RE",
+    # url / host_url / path (url, host_url, path_qs, url_quote, url_unquote)
+    "webob.request:BaseRequest.url", "webob.request:BaseRequest.path_url", "webob.request:BaseRequest.application_url",
+    "webob.request:BaseRequest.host_url", "webob.util:url_unquote", "webob.util:unquote", "webob.util:bytes_", "webob.util:text_",
+    # the headers view of the environ (hdr_items, trans_key, trans_name, dict_get/dict_set)
+    "webob.request:BaseRequest._headers__get", "webob.headers:EnvironHeaders", "webob.headers:_trans_key", "webob.headers:_trans_name",
+    "webob.headers:key2header", "webob.headers:header2key",
+    # the body state (is_body_readable, acquire, set_body, content_length, py_int, dec)
+    "webob.request:BaseRequest.is_body_readable", "webob.request:BaseRequest.body", "webob.request:BaseRequest.body_file",
+    "webob.request:BaseRequest.make_body_seekable", "webob.request:BaseRequest.copy_body", "webob.request:BaseRequest.content_length",
+    "webob.descriptors:parse_int_safe", "webob.descriptors:serialize_int", "webob.descriptors:environ_getter", "webob.descriptors:converter",
+    # sub-requests (Model/C20_callapp.v: call_application, send)
+    "webob.request:BaseRequest.call_application", "webob.request:BaseRequest.send",
+    # Response wire forms (resp_from_file, rhdr_loop, status_ok, resp_clen, cl_last, resp_str)
+    "webob.response:Response.from_file", "webob.response:Response.__str__", "webob.response:Response._status__set",
+    "webob.response:Response._body__set", "webob.response:Response._text__set", "webob.response:Response.content_length",
+    "webob.descriptors:header_getter",
+]
+REGENERATED = []           # no regex or table decides this property: nothing is translated into coq/Gen
+ORACLE_ONLY = [
+    "webob.request:BaseRequest.as_text", "webob.request:BaseRequest.from_text", "webob.request:BaseRequest.blank",
+    "webob.request:BaseRequest.copy", "webob.request:BaseRequest.method", "webob.request:BaseRequest.http_version",
+    "webob.request:BaseRequest.script_name", "webob.request:BaseRequest.path_info", "webob.request:BaseRequest.encget",
+    "webob.request:LimitedLengthFile", "webob.request:BaseRequest.__init__",
+    "webob.response:Response.__init__", "webob.response:Response.__call__", "webob.response:Response.copy",
+    "webob.response:Response._body__get", "webob.response:Response._text__get", "webob.response:Response.charset",
+    "webob.response:Response._status_code__set", "webob.response:Response._headerlist__get", "webob.response:iter_close",
+]
+
+
 def run(ctx):
+    ctx.modelled(MODELLED)
+    ctx.extra["regenerated_from_source"] = REGENERATED
+    ctx.extra["oracle_only"] = ORACLE_ONLY
     # Model/C20_obs.vo (the encoders used by the correspondence) is not in the closure of Props/C20.vo
     ctx.build(["Props/C20.vo", "Model/C20_obs.vo"])
     from webob import Request, Response  # noqa
@@ -1629,21 +1666,6 @@ def skip_resp_stream(t):
         return True
     except ValueError:
         pass
-    # a first Content-Length that int() refuses: ValueError today, "no length" once C12's parse_int_safe repair
-    # (fixes/C12-01) is applied - the outcome belongs to C12 (total getters), not to this property
-    for line in t.split("\n")[1:]:
-        line = line.strip(" \t\n\r\x0b\x0c")
-        if not line:
-            break
-        name, sep, value = line.partition(":")
-        if sep and name.lower() == "content-length":
-            value = value.strip(" \t\n\r\x0b\x0c")
-            if value:
-                try:
-                    int(value)
-                except ValueError:
-                    return True
-            break
     return False
 
 
